@@ -13,6 +13,7 @@ mod props;
 mod rtx;
 mod smt;
 mod sym;
+mod topo;
 
 use explore::{Budget, Explorer};
 use props::Tier;
